@@ -8,7 +8,7 @@ Proof. intros; unfold src_rebin_reshape; src_finish. Qed.
 
 Lemma src_rebin_reshape_3d_ok : forall (d n m f : Z) (cplx : bool),
   src_rebin_reshape_3d (d, n, m) f cplx =
-  if cplx then Err ValueError else Ok ((d, n / f, m / f), (n / f, f, m / f, f)).
+  if cplx then Err ValueError else Ok ((d, n / f, m / f), (d, n / f, f, m / f, f)).
 Proof. intros; unfold src_rebin_reshape_3d; src_finish. Qed.
 
 (* the model's rebin produces exactly the shape handed to reshape (where reshape accepts the sizes) *)
@@ -41,3 +41,92 @@ Lemma src_rebin_reshape_3d_model : forall (S : Scalar) (c : cube S) (f : Z), 0 <
   | Err _ => False
   end.
 Proof. intros. rewrite src_rebin_reshape_3d_ok. apply rebin3_shape; assumption. Qed.
+
+(* ------------------------------------------------------------------ lentil/segmented.py: the hex lattice *)
+From LV Require Import Model.Shapes.
+
+Definition hsum (h : hex) : Z := let '(q, r, s) := h in q + r + s.
+
+(* hex_add with the assertion of Hex(): q + r + s must be 0 *)
+Lemma src_hex_add_ok : forall a b : hex,
+  src_hex_add a b = if hsum a + hsum b =? 0 then Ok (hex_add a b) else Err AssertionErr.
+Proof. intros; destr_prods; unfold src_hex_add, hex_add, hsum; src_finish. Qed.
+
+Lemma hsum_add : forall h d : hex, hsum (hex_add h d) = hsum h + hsum d.
+Proof. intros; destr_prods; unfold hex_add, hsum; lia. Qed.
+
+(* one iteration of `for j in range(radius): results.append(hex); hex = hex_neighbor(hex, i)` in direction d *)
+Definition ring_step (d : hex) (st : list hex * hex) : result (list hex * hex) :=
+  let '(res, h) := st in
+  if hsum (hex_add h d) =? 0 then Ok (res ++ [h], hex_add h d) else Err AssertionErr.
+
+Ltac step_tac f := intros; destr_prods; unfold f, ring_step, hex_add, hsum; src_finish.
+Lemma src_hex_ring_step_ok : forall st j, src_hex_ring_step st j = ring_step (1, 0, -1) st.
+Proof. step_tac src_hex_ring_step. Qed.
+Lemma src_hex_ring_step_1_ok : forall st j, src_hex_ring_step_1 st j = ring_step (1, -1, 0) st.
+Proof. step_tac src_hex_ring_step_1. Qed.
+Lemma src_hex_ring_step_2_ok : forall st j, src_hex_ring_step_2 st j = ring_step (0, -1, 1) st.
+Proof. step_tac src_hex_ring_step_2. Qed.
+Lemma src_hex_ring_step_3_ok : forall st j, src_hex_ring_step_3 st j = ring_step (-1, 0, 1) st.
+Proof. step_tac src_hex_ring_step_3. Qed.
+Lemma src_hex_ring_step_4_ok : forall st j, src_hex_ring_step_4 st j = ring_step (-1, 1, 0) st.
+Proof. step_tac src_hex_ring_step_4. Qed.
+Lemma src_hex_ring_step_5_ok : forall st j, src_hex_ring_step_5 st j = ring_step (0, 1, -1) st.
+Proof. step_tac src_hex_ring_step_5. Qed.
+
+Lemma walk_hsum : forall (k : nat) (h d : hex), hsum h = 0 -> hsum d = 0 -> hsum (snd (walk k h d)) = 0.
+Proof.
+  induction k; intros h d Hh Hd; simpl; [assumption|].
+  specialize (IHk (hex_add h d) d). destruct (walk k (hex_add h d) d) as [l e]. simpl in *.
+  apply IHk; [rewrite hsum_add; lia | assumption].
+Qed.
+
+(* the fold of a step that is [ring_step d] walks k cells in direction d (the assertion never fires on the lattice) *)
+Lemma ring_fold : forall (f : list hex * hex -> Z -> result (list hex * hex)) (d : hex),
+  (forall st j, f st j = ring_step d st) -> hsum d = 0 ->
+  forall (idx : list Z) (res : list hex) (h : hex), hsum h = 0 ->
+  fold_left (fun acc i => rbind acc (fun st => f st i)) idx (Ok (res, h)) =
+  Ok (res ++ fst (walk (length idx) h d), snd (walk (length idx) h d)).
+Proof.
+  intros f d Hf Hd. induction idx; intros res h Hh; simpl.
+  - rewrite app_nil_r. reflexivity.
+  - rewrite Hf. unfold ring_step. rewrite hsum_add, Hh, Hd. simpl.
+    rewrite IHidx by (rewrite hsum_add; lia).
+    destruct (walk (length idx) (hex_add h d) d) as [l e]. simpl. rewrite <- app_assoc. reflexivity.
+Qed.
+
+Lemma ring_loop_cons : forall (d : hex) (t : list hex) (k : nat) (h : hex),
+  ring_loop (d :: t) k h = fst (walk k h d) ++ ring_loop t k (snd (walk k h d)).
+Proof. intros. simpl. destruct (walk k h d); reflexivity. Qed.
+
+(* hex_ring(radius): the assertions of Hex() never fire and the list is the model's ring *)
+Ltac ring_stage Hstep H0 :=
+  rewrite (ring_fold _ _ Hstep eq_refl) by exact H0;
+  let l := fresh "l" in let q := fresh "q" in let r := fresh "r" in let s := fresh "s" in
+  let W := fresh "W" in let H := fresh "Hs" in
+  match goal with
+  | |- context[walk ?k ?h ?d] =>
+      pose proof (walk_hsum k h d H0 eq_refl) as H;
+      destruct (walk k h d) as [l [[q r] s]] eqn:W; cbn [fst snd] in H |- *; src_norm
+  end.
+
+Lemma src_hex_ring_ok : forall radius : Z, src_hex_ring radius = Ok (hex_ring radius).
+Proof.
+  intros. unfold src_hex_ring. first [reflexivity | idtac].        (* (reflexivity: the refused fallback) *)
+  all: src_norm.
+  all: destruct (negb (negb (- radius + radius + 0 =? 0))) eqn:E; [|exfalso; lia].
+  all: set (idx := map Z.of_nat (seq 0 (Z.to_nat radius))).
+  all: assert (Hl : length idx = Z.to_nat radius) by (subst idx; rewrite map_length, seq_length; reflexivity).
+  all: assert (H0 : hsum (- radius, radius, 0) = 0) by (unfold hsum; lia).
+  all: ring_stage src_hex_ring_step_ok H0.
+  all: ring_stage src_hex_ring_step_1_ok Hs.
+  all: ring_stage src_hex_ring_step_2_ok Hs0.
+  all: ring_stage src_hex_ring_step_3_ok Hs1.
+  all: ring_stage src_hex_ring_step_4_ok Hs2.
+  all: ring_stage src_hex_ring_step_5_ok Hs3.
+  all: f_equal; unfold hex_ring, hex_directions; rewrite <- Hl.
+  all: rewrite ring_loop_cons, W; cbn [fst snd]; rewrite ring_loop_cons, W0; cbn [fst snd].
+  all: rewrite ring_loop_cons, W1; cbn [fst snd]; rewrite ring_loop_cons, W2; cbn [fst snd].
+  all: rewrite ring_loop_cons, W3; cbn [fst snd]; rewrite ring_loop_cons, W4; cbn [fst snd].
+  all: simpl ring_loop; rewrite app_nil_r, ?app_nil_l, <- !app_assoc; reflexivity.
+Qed.
